@@ -80,6 +80,7 @@ pub enum G {
     MapErr(B, String),
     Memo(B),
     Rec(B),
+    RecD(B), // Recursive::declare() + define()
     Ref(usize),
     Let(B, B),
     Var(usize),
@@ -223,6 +224,7 @@ impl G {
             "maperr" => G::MapErr(bx(&a[1])?, st(&a[2])),
             "memo" => G::Memo(bx(&a[1])?),
             "rec" => G::Rec(bx(&a[1])?),
+            "recd" => G::RecD(bx(&a[1])?),
             "ref" => G::Ref(us(&a[1])),
             "let" => G::Let(bx(&a[1])?, bx(&a[2])?),
             "var" => G::Var(us(&a[1])),
